@@ -75,12 +75,13 @@ def leaves(prefix, ft):
   return out
 
 class Gen:
-  def __init__(s, rng, name, depth=0, size='medium', uid='', focus=None, ys_safe=False):
+  def __init__(s, rng, name, depth=0, size='medium', uid='', focus=None, ys_safe=False, yosys=False):
     s.rng, s.name, s.depth, s.size, s.uid = rng, name, depth, size, uid
     # ys_safe: keep every struct-typed wire / output at ONE granularity (written and read as a whole, outputs only of
     # structs with plain Bits fields): the Yosys backend keeps `x` and `x__field` as unrelated variables otherwise
     # (reported separately by directed designs), and that would hide everything else it does
     s.ys_safe = ys_safe
+    s.yosys = yosys          # the design is meant for the Yosys backend too (nested interfaces with port arrays: the SV backend rejects them)
     s.focus = focus
     # known-defect shapes are generated only in a fraction of the designs, so that the other designs can expose
     # NEW kinds of disagreement (each shape also has directed minimal designs, see directed_designs below)
@@ -495,7 +496,8 @@ class Gen:
       if r < 0.36 and top: s.add_varslice_unit(); continue
       if r < 0.42: s.add_lambda_bank(); continue
       if r < 0.50 and top: s.add_struct_array_unit(); continue
-      if r < 0.57: s.add_const_struct_connect(); continue
+      if r < 0.62 and top: s.add_structural_unit(); continue
+      if r < 0.67: s.add_const_struct_connect(); continue
       if r < 0.40 and s.structs: s.add_struct_unit(); continue
       if r < 0.50: s.add_connect_unit(); continue
       # plain Bits target(s)
@@ -1056,6 +1058,156 @@ class Gen:
       for ix in itertools.product(*[range(d) for d in dims]):
         sel = ''.join(f'[{i}]' for i in ix); s.lines.append(f's.{ci}.in_{sel} //= s.{src}{sel}')
       s.avail.append(Sig(f's.{ci}.out', leaf[1])); s.feat('struct-port-array:subcomponent')
+
+  # ------------------------------------------------------------------ structural hierarchy: arrays of components / interfaces / ports
+  def add_structural_unit(s):
+    """a generated sub-component (single or in a list) with port arrays (BitsN / struct-typed), an array of interfaces
+    whose ports are arrays and scalars in every name order, optionally a nested interface mixing array and scalar members;
+    everything of unequal lengths.  The parent connects every child port structurally, element by element, with a further
+    select after the array index (struct field / packed index / slice) on either side, and exposes the results."""
+    rng = s.rng
+    u = f'{s.uid}_{s.nsig}'
+    P = rng.choice([1, 2, 3, 4]); K = rng.choice([x for x in (1, 2, 3, 4) if x != P]); single = rng.random() < 0.25
+    if single: K = 1
+    w = rng.choice([4, 8, 8, 16])
+    # a small struct with a vector field, a second vector and (sometimes) a packed array field
+    use_struct = rng.random() < 0.6
+    sn = f'LP{u}'
+    sfields = [('hi', ('bits', rng.choice([4, 8]))), ('lo', ('bits', rng.choice([2, 4])))]
+    if rng.random() < 0.5: sfields.insert(rng.randrange(3), ('vv', ('list', rng.choice([2, 3]), ('bits', rng.choice([2, 4])))))
+    if use_struct:
+      s.pre += ['@bitstruct', f'class {sn}:'] + [f'  {n}: {ft_text(ft)}' for n, ft in sfields]
+      ST = StructT(sn, sfields); s.feat('structural:struct-port-array')
+    # interface with port arrays and scalars; member names chosen so that every sorted order occurs
+    use_ifc = rng.random() < 0.65
+    L = rng.choice([x for x in (1, 2, 3, 4) if x != K] or [2]); J = rng.choice([x for x in (1, 2, 3) if x != L] or [2])
+    names = rng.choice([('a_in', 'a_out', 'z_req', 'z_resp'), ('z_in', 'z_out', 'a_req', 'a_resp'), ('m_in', 'm_out', 'm_req', 'm_resp')])
+    sc_in, sc_out, ar_in, ar_out = names
+    scalar_too = rng.random() < 0.7
+    nested = use_ifc and s.yosys and rng.random() < 0.5
+    if use_ifc:
+      inner = [f'class CI{u}( Interface ):', '  def construct( s ):',
+               f'    s.{ar_in} = [ InPort( {w} ) for _ in range({L}) ]', f'    s.{ar_out} = [ OutPort( {w} ) for _ in range({L}) ]']
+      if scalar_too: inner += [f'    s.{sc_in} = InPort( {w} )', f'    s.{sc_out} = OutPort( {w} )']
+      s.pre += inner
+      if nested:
+        s.pre += [f'class CO{u}( Interface ):', '  def construct( s ):', f'    s.bundle = CI{u}()', '    s.sel_in = InPort( 4 )', '    s.sel_out = OutPort( 4 )']
+        s.feat('structural:nested-interface-with-port-arrays')
+      s.feat('structural:interface-array-with-port-arrays')
+    ifc_cls = f'CO{u}' if nested else f'CI{u}'
+    ifc_list = use_ifc and not nested and rng.random() < 0.8      # nested interfaces stay single (arrays of them are a known Yosys defect)
+    T = sn if use_struct else str(w)
+    cl = [f'class Lane{u}( Component ):', '  def construct( s ):',
+          f'    s.in_ = [ InPort( {T} ) for _ in range({P}) ]', f'    s.out = [ OutPort( {T} ) for _ in range({P}) ]',
+          f'    s.raw_in = [ InPort( {w} ) for _ in range({P}) ]', f'    s.raw_out = [ OutPort( {w} ) for _ in range({P}) ]']
+    rot = rng.randrange(P)
+    cl += [f'    for i in range({P}):', f'      s.out[i] //= s.in_[ (i + {rot}) % {P} ]']
+    if rng.random() < 0.5: cl += [f'      s.raw_out[i] //= s.raw_in[i]']
+    else: cl += ['    @update', '    def up_lane():', f'      for i in range({P}):', f'        s.raw_out[i] @= s.raw_in[ {P - 1} - i ] + {rng.randrange(1, 9)}']
+    if use_ifc:
+      pre_ = 's.port[j]' if ifc_list else 's.port'
+      mem = '.bundle' if nested else ''
+      cl.append(f'    s.port = [ {ifc_cls}() for _ in range({J}) ]' if ifc_list else f'    s.port = {ifc_cls}()')
+      body = [f'for i in range({L}):', f'  {pre_}{mem}.{ar_out}[i] //= {pre_}{mem}.{ar_in}[ (i + 1) % {L} ]']
+      if scalar_too: body.append(f'{pre_}{mem}.{sc_out} //= {pre_}{mem}.{sc_in}')
+      if nested: body.append(f'{pre_}.sel_out //= {pre_}.sel_in')
+      if ifc_list: cl += [f'    for j in range({J}):'] + ['      ' + b for b in body]
+      else: cl += ['    ' + b for b in body]
+    s.pre += cl
+    ln = s.name_sig('ln')
+    s.lines.append(f's.{ln} = Lane{u}()' if single else f's.{ln} = [ Lane{u}() for _ in range({K}) ]')
+    s.feat('structural:component-' + ('single' if single else 'array'))
+    n = K * P
+    def child(k): return f's.{ln}' if single else f's.{ln}[{k}]'
+    # ---- parent side: inputs
+    if use_struct:
+      fieldwise_in = rng.random() < 0.4
+      if fieldwise_in:
+        s.feat('structural:select-after-index:writer-side')
+        srcs = {}
+        for fn, ft in sfields:
+          if ft[0] == 'bits':
+            nm = s.name_sig('xi'); s.lines.append(f's.{nm} = [ InPort( {ft[1]} ) for _ in range({n}) ]'); srcs[fn] = nm
+          else:
+            nm = s.name_sig('xi'); s.lines.append(f's.{nm} = [ InPort( {ft[2][1]} ) for _ in range({n * ft[1]}) ]'); srcs[fn] = nm
+      else:
+        sin = s.name_sig('xs'); s.lines.append(f's.{sin} = [ InPort( {sn} ) for _ in range({n}) ]')
+    else:
+      sin = s.name_sig('xs'); s.lines.append(f's.{sin} = [ InPort( {w} ) for _ in range({n}) ]')
+    rin = s.name_sig('xr'); s.lines.append(f's.{rin} = [ InPort( {w} ) for _ in range({n}) ]')
+    for k in range(K):
+      for i in range(P):
+        q = k * P + i
+        if use_struct and fieldwise_in:
+          for fn, ft in sfields:
+            if ft[0] == 'bits': s.lines.append(f'{child(k)}.in_[{i}].{fn} //= s.{srcs[fn]}[{q}]')
+            else:
+              for e in range(ft[1]): s.lines.append(f'{child(k)}.in_[{i}].{fn}[{e}] //= s.{srcs[fn]}[{q * ft[1] + e}]')
+        else: s.lines.append(f'{child(k)}.in_[{i}] //= s.{sin}[{q}]')
+        s.lines.append(f'{child(k)}.raw_in[{i}] //= s.{rin}[{q}]')
+    # ---- parent side: outputs, whole and with one more select after the array index
+    outs = []
+    def out_list(width, count, tag):
+      nm = s.name_sig('xo'); s.lines.append(f's.{nm} = [ OutPort( {width} ) for _ in range({count}) ]'); outs.append((nm, width, count)); return nm
+    whole = out_list(T, n, 'whole') if rng.random() < 0.7 else None
+    fsel = []
+    if use_struct:
+      for fn, ft in sfields:
+        if rng.random() < 0.7:
+          if ft[0] == 'bits': fsel.append((fn, ft[1], out_list(ft[1], n, fn), None)); s.feat('structural:select-after-index:field')
+          else: fsel.append((fn, ft[2][1], out_list(ft[2][1], n, fn), rng.randrange(ft[1]))); s.feat('structural:select-after-index:packed-index')
+    a = rng.randrange(0, w - 1); b = rng.randrange(a + 1, w + 1)
+    nib = out_list(b - a, n, 'slice') if rng.random() < 0.7 else None
+    if nib: s.feat('structural:select-after-index:slice')
+    rawo = out_list(w, n, 'raw') if (nib is None or rng.random() < 0.5) else None
+    for k in range(K):
+      for i in range(P):
+        q = k * P + i
+        if whole: s.lines.append(f's.{whole}[{q}] //= {child(k)}.out[{i}]')
+        for fn, fw, nm, e in fsel:
+          s.lines.append(f's.{nm}[{q}] //= {child(k)}.out[{i}].{fn}' + (f'[{e}]' if e is not None else ''))
+        if nib: s.lines.append(f's.{nib}[{q}] //= {child(k)}.raw_out[{i}][{a}:{b}]')
+        if rawo: s.lines.append(f's.{rawo}[{q}] //= {child(k)}.raw_out[{i}]')
+    # ---- the interfaces of the child
+    if use_ifc:
+      JJ = J if ifc_list else 1
+      tot = K * JJ * L
+      pin = s.name_sig('xp'); s.lines.append(f's.{pin} = [ InPort( {w} ) for _ in range({tot}) ]')
+      pout = out_list(w, tot, 'ifc')
+      sl = rng.random() < 0.4
+      pout2 = out_list(b - a, tot, 'ifc-slice') if sl else None
+      if scalar_too:
+        tin = s.name_sig('xt'); s.lines.append(f's.{tin} = [ InPort( {w} ) for _ in range({K * JJ}) ]'); tout = out_list(w, K * JJ, 'ifc-scalar')
+      if nested:
+        nin = s.name_sig('xn'); s.lines.append(f's.{nin} = [ InPort( 4 ) for _ in range({K * JJ}) ]'); nout = out_list(4, K * JJ, 'ifc-sel')
+      mem = '.bundle' if nested else ''
+      for k in range(K):
+        for j in range(JJ):
+          pj = f'{child(k)}.port[{j}]' if ifc_list else f'{child(k)}.port'
+          for i in range(L):
+            q = (k * JJ + j) * L + i
+            s.lines.append(f'{pj}{mem}.{ar_in}[{i}] //= s.{pin}[{q}]')
+            s.lines.append(f's.{pout}[{q}] //= {pj}{mem}.{ar_out}[{i}]')
+            if pout2: s.lines.append(f's.{pout2}[{q}] //= {pj}{mem}.{ar_out}[{i}][{a}:{b}]')
+          if scalar_too:
+            s.lines.append(f'{pj}{mem}.{sc_in} //= s.{tin}[{k * JJ + j}]'); s.lines.append(f's.{tout}[{k * JJ + j}] //= {pj}{mem}.{sc_out}')
+          if nested:
+            s.lines.append(f'{pj}.sel_in //= s.{nin}[{k * JJ + j}]'); s.lines.append(f's.{nout}[{k * JJ + j}] //= {pj}.sel_out')
+    for nm, width, count in outs:
+      if isinstance(width, int):
+        for q in range(count): s.avail.append(Sig(f's.{nm}[{q}]', width))
+    # ---- the same kind of interface on the top component itself
+    if use_ifc and rng.random() < 0.4:
+      tn = s.name_sig('tp'); JT = rng.choice([x for x in (1, 2, 3) if x != L] or [2])
+      tl = not nested and rng.random() < 0.8
+      s.lines.append(f's.{tn} = [ {ifc_cls}() for _ in range({JT}) ]' if tl else f's.{tn} = {ifc_cls}()')
+      mem = '.bundle' if nested else ''
+      for j in range(JT if tl else 1):
+        pj = f's.{tn}[{j}]' if tl else f's.{tn}'
+        for i in range(L): s.lines.append(f'{pj}{mem}.{ar_out}[{i}] //= {pj}{mem}.{ar_in}[{(i + 1) % L}]')
+        if scalar_too: s.lines.append(f'{pj}{mem}.{sc_out} //= {pj}{mem}.{sc_in}')
+        if nested: s.lines.append(f'{pj}.sel_out //= {pj}.sel_in')
+      s.feat('structural:top-interface-with-port-arrays')
 
   # ------------------------------------------------------------------ blocks created in a python loop, constant tables
   def add_lambda_bank(s):
